@@ -228,7 +228,9 @@ func ruleC14_2(c *Ctx) {
 		{"flag noaddr", func(f map[string]bool) bool { return has(f, contains(2, "noaddr"), false) }, "a node without address is used for routing"},
 		{"flag handshake", func(f map[string]bool) bool { return has(f, contains(2, "handshake"), false) }, "a node still in handshake is used for routing"},
 		{"flag fail", func(f map[string]bool) bool { return has(f, contains(2, "fail"), false) }, "a node flagged fail/fail? is used for routing"},
-		{"master or slave", func(f map[string]bool) bool { return has(f, contains(2, "master"), true) || has(f, contains(2, "slave"), true) }, "a line that is neither master nor slave is accepted"},
+		{"master or slave", func(f map[string]bool) bool {
+			return has(f, contains(2, "master"), true) || has(f, contains(2, "slave"), true)
+		}, "a line that is neither master nor slave is accepted"},
 		{"link state disconnected", func(f map[string]bool) bool { return has(f, contains(7, "disconnected"), false) }, "a node whose cluster link is disconnected is used for routing"},
 		{"newClusterNode error", func(f map[string]bool) bool { return has(f, newNodeErr, false) }, "a line that failed to parse (address, slots) is accepted"},
 		{"new node: INFO succeeded", func(f map[string]bool) bool { return has(f, known, true) || has(f, infoErr, false) }, "a newly discovered node is accepted although INFO failed"},
@@ -311,6 +313,63 @@ func ruleC14_3(c *Ctx) {
 			}
 			c.check(okW, "serverChanged raised after both tables are rebuilt", c.at(w.Instr), "dominated by setServer and setReplicaset",
 				"'changed' is signalled to the event loop before the new server map and replica sets are complete: ticker rebuilds pools and slots from a half-updated description")
+		}
+	}
+	// a listing that isChanged recorded as the current one is adopted: from the edge on which isChanged answered true no
+	// return is reachable without passing the store serverChanged = true (isChanged stores the new fingerprint, so a
+	// listing dropped here is never looked at again)
+	if isCh != nil {
+		var raised []*ssa.BasicBlock
+		for _, w := range p.fieldWrites(sc) {
+			if k, isConst := w.Val.(*ssa.Const); isConst && k.Value.String() == "true" && w.Fn == upd {
+				raised = append(raised, w.Instr.Block())
+			}
+		}
+		for _, call := range p.callsIn(upd, isCh) {
+			cv, _ := call.(ssa.Value)
+			for _, b := range upd.Blocks {
+				ifi, ok := b.Instrs[len(b.Instrs)-1].(*ssa.If)
+				if !ok || cv == nil {
+					continue
+				}
+				truth := true
+				cond := stripNot(ifi.Cond, &truth)
+				if cond != cv {
+					continue
+				}
+				start := b.Succs[0]
+				if !truth {
+					start = b.Succs[1]
+				}
+				seen := map[*ssa.BasicBlock]bool{}
+				var escape *ssa.BasicBlock
+				var walk func(x *ssa.BasicBlock)
+				walk = func(x *ssa.BasicBlock) {
+					if seen[x] || escape != nil {
+						return
+					}
+					seen[x] = true
+					for _, rb := range raised {
+						if rb == x {
+							return
+						}
+					}
+					if _, isRet := x.Instrs[len(x.Instrs)-1].(*ssa.Return); isRet {
+						escape = x
+						return
+					}
+					for _, sx := range x.Succs {
+						walk(sx)
+					}
+				}
+				walk(start)
+				at := c.at(ifi)
+				if escape != nil {
+					at = c.at(escape.Instrs[len(escape.Instrs)-1])
+				}
+				c.check(escape == nil, "updateClusterNodes: a listing recorded by isChanged is adopted", at, "every way from isChanged's true edge passes serverChanged = true",
+					"updateClusterNodes can return on the edge where isChanged answered true without rebuilding the tables and raising serverChanged: isChanged has already stored the listing's fingerprint as the current one, so the same listing is 'unchanged' from the next probe on and is never applied - e.g. a replica that moved to another master stays in its old replica set and its reads bounce with -MOVED")
+			}
 		}
 	}
 	// parse: fewer than three usable nodes is an error, and the success return carries the list
